@@ -404,6 +404,111 @@ func runC08(c *Ctx) {
 			c.check(len(bad) == 0 && len(paths) >= 2, "positions-from-search", fnKey(assigner)+"#search-ranges", p.FnPos(assigner), "small blind searched strictly after the dealer, big blind strictly after the small blind, in the ring starting at the dealer", "blind searches start at the wrong seat", uniq(bad, 3)...)
 		}
 	}
+	// ---- closed-span: after the blinds are set, the empty seats between the dealer and the big blind
+	// are closed: the walk follows the ring that starts at the dealer, stops at the big blind, and
+	// closes a seat exactly when nobody sits on it (a seat that is merely held is closed too: its
+	// holder must wait for the button like any newcomer)
+	if next != nil {
+		var assigner *ssa.Function
+		for _, cc := range ix.Info[next].Calls {
+			if f := cc.StaticCallee(); f != nil && assigner == nil && ix.Info[f] != nil && ix.Info[f].TWrites["seat_manager.SeatManager.bb"] {
+				assigner = f
+			}
+		}
+		type cand struct {
+			fn *ssa.Function
+			l  *Loop
+			s  *Summ
+		}
+		var cands []cand
+		if assigner != nil {
+			fns := []*ssa.Function{assigner}
+			for f := range ix.Reachable(assigner) {
+				if f != assigner && f.Pkg == assigner.Pkg {
+					fns = append(fns, f)
+				}
+			}
+			sort.Slice(fns, func(i, j int) bool { return fnKey(fns[i]) < fnKey(fns[j]) })
+			for _, f := range fns {
+				s := newSumm(p, 0)
+				s.EngineAliases = false
+				s.HelperInline = purePredicate(p, f)
+				for _, l := range s.loops(f) {
+					body, _ := s.LoopBody(f, l)
+					closes := false
+					for _, bp := range body {
+						for _, e := range bp.storesTo("seat_manager.Seat.IsActive") {
+							if e.Val.String() == "false" {
+								closes = true
+							}
+						}
+					}
+					if closes {
+						cands = append(cands, cand{f, l, s})
+					}
+				}
+			}
+		}
+		if len(cands) == 0 {
+			c.undecided("closed-span", "closing-walk", "-", "no loop below the blind assignment closes seats")
+		}
+		for _, cd := range cands {
+			f, l := cd.fn, cd.l
+			c.touch(fnKey(f))
+			var bad []string
+			ri := analyseRange(l)
+			if ri.Kind != "slice" || ri.Coll == nil {
+				bad = append(bad, "the closing walk does not range over a list of seats (a walk over seat ids does not wrap at the end of the table)")
+			} else if !ringFromDealer(ix, ri.Coll, f, 0) {
+				bad = append(bad, "the closing walk does not follow the ring that starts at the dealer")
+			}
+			body, _ := cd.s.LoopBody(f, l)
+			stops := false
+			for _, bp := range body {
+				isStopAtom := func(v *Val) bool {
+					return v.K == KAtom && v.At.Op == "is" && strings.Contains(v.At.String(), "[iter:") && !strings.Contains(v.At.String(), "nil") && (strings.Contains(v.At.String(), "recv.bb") || strings.Contains(v.At.String(), "param:"))
+				}
+				for _, cnd := range bp.Conds {
+					if isStopAtom(cnd.V) {
+						stops = true
+					}
+				}
+				closing := false
+				for _, e := range bp.storesTo("seat_manager.Seat.IsActive") {
+					if e.Val.String() == "false" {
+						closing = true
+					}
+				}
+				if !closing {
+					continue
+				}
+				nEmpty, other := 0, []string{}
+				for _, cnd := range bp.Conds {
+					v := cnd.V
+					switch {
+					case isStopAtom(v):
+					case v.K == KAtom && v.At.Op == "is" && !v.Neg && strings.Contains(v.At.String(), ".Player") && strings.Contains(v.At.String(), "nil"):
+						nEmpty++
+					case v.K == KAtom && (v.At.Op == "lt" || v.At.Op == "le"):
+						// the loop's own bound
+					default:
+						other = append(other, v.String())
+					}
+				}
+				if nEmpty != 1 {
+					bad = append(bad, "a seat is closed without the test that nobody sits on it")
+				}
+				if len(other) > 0 {
+					bad = append(bad, "a seat between dealer and big blind is closed only under the further condition ["+strings.Join(other, " && ")+"]")
+				}
+			}
+			if !stops {
+				bad = append(bad, "the closing walk does not stop at the big blind")
+			}
+			c.check(len(bad) == 0, "closed-span", fnKey(f), p.FnPos(f), "every empty seat from the dealer up to the big blind is closed, along the ring", "seats between dealer and big blind are not closed as the property says: a newcomer there is dealt in early", uniq(bad, 3)...)
+		}
+	}
+
 	// ring builder
 	if rb := p.Func(smPkg, "SeatManager", "getNormalizeSeats"); rb == nil {
 		// resolve by role: callee whose result is sliced [1:] in the assigner; fall back to name of exported wrapper
@@ -687,4 +792,56 @@ func purePredicate(p *Prog, owner *ssa.Function) func(*ssa.Function) bool {
 		fi := ix.Info[f]
 		return fi != nil && len(fi.Writes) == 0
 	}
+}
+
+// ringFromDealer: the slice value is the clockwise ring built from the dealer's seat id: a call of
+// a function of the package with the dealer's ID as argument, or a parameter to which every caller
+// passes such a value.
+func ringFromDealer(ix *Index, v ssa.Value, fn *ssa.Function, depth int) bool {
+	if depth > 3 {
+		return false
+	}
+	switch x := v.(type) {
+	case *ssa.Call:
+		f := x.Call.StaticCallee()
+		if f == nil || f.Pkg != fn.Pkg {
+			return false
+		}
+		for _, a := range x.Call.Args {
+			if fa, ok := a.(*ssa.UnOp); ok {
+				if fld, ok := fa.X.(*ssa.FieldAddr); ok && loadsField(fld.X, "seat_manager.SeatManager.dealer") {
+					return true
+				}
+			}
+		}
+		return false
+	case *ssa.Parameter:
+		idx := -1
+		for i, prm := range fn.Params {
+			if prm == x {
+				idx = i
+			}
+		}
+		callers := ix.Callers(fn)
+		if idx < 0 || len(callers) == 0 {
+			return false
+		}
+		for _, cl := range callers {
+			for _, cs := range ix.CallSites(cl, fn) {
+				args := cs.Common().Args
+				if idx >= len(args) || !ringFromDealer(ix, args[idx], cl, depth+1) {
+					return false
+				}
+			}
+		}
+		return true
+	case *ssa.Phi:
+		for _, e := range x.Edges {
+			if !ringFromDealer(ix, e, fn, depth+1) {
+				return false
+			}
+		}
+		return len(x.Edges) > 0
+	}
+	return false
 }
